@@ -60,6 +60,24 @@ pub fn run_case(c: &Sexp) -> R<Sexp> {
             }
             Ok(ok(L(vec![a("some"), sexp_of_ss(&ss)])))
         },
+        ("useqr", n) if n >= 3 => {
+            let t = term_of(&l[2])?;
+            let mut pairs: Vec<(Unifiable, Unifiable)> = vec![];
+            for p in &l[3..] {
+                let pl = p.list()?;
+                if pl.len() != 2 { return Err("useqr pair".into()); }
+                pairs.push((term_of(&pl[0])?, term_of(&pl[1])?));
+            }
+            let mut ss = ss_of(&l[1])?;
+            for (x, y) in pairs.iter() {
+                match x.unify(y, &ss) {
+                    Some(s2) => { ss = Rc::new((*s2).clone()); },
+                    None => { return Ok(ok(a("none"))); },
+                }
+            }
+            let r = t.replace_variables(&ss);
+            Ok(L(vec![a("ok"), L(vec![a("some"), sexp_of_ss(&ss)]), sexp_of_term(&r)]))
+        },
         ("replace", 3) => {
             let t = term_of(&l[1])?;
             let ss = ss_of(&l[2])?;
